@@ -23,7 +23,7 @@
 From Coq Require Import String List ZArith NArith Bool.
 Import ListNotations.
 From Selfies Require Import Base Generated Atoms Grammar Decoder PySet Matching Smiles Kekulize Encoder
-  IndexSpec IndexCode Reader RoundTrip EncoderFacts PureFacts AlphaClosure WriterAtoms EncHyp EncShape EncAtoms EncGood EncDecodes EncStd EncRows EncSize EncStd2.
+  IndexSpec IndexCode Reader RoundTrip EncoderFacts PureFacts AlphaClosure WriterAtoms EncHyp EncShape EncAtoms EncGood EncDecodes EncStd EncRows EncSize EncStd2 EncStrict.
 Local Open Scope string_scope.
 
 Theorem C10_suffix_partial : forall n syms,
@@ -75,6 +75,17 @@ Theorem C10_encoder_output_decodes_sized_partial : forall T smiles strict attrib
 Proof. exact encoder_output_decodes_sized. Qed.
 
 
+(* strict=True (the default): the hypothesis on the atoms is discharged by the strict check itself.  A passed check bounds
+   every stored count by 2*(capacity - explicit H); the count is the sum of the orders of the atom's bonds (C06,
+   proofs/EncCount.v), hence not negative; so the explicit hydrogens fit.  Only the two size bounds remain. *)
+Theorem C10_strict_encoder_output_decodes : forall T smiles attribute s maps attribute',
+  table_ok T ->
+  encoder T smiles true attribute = Ok (s, maps) ->
+  (length smiles <= 4096)%nat ->
+  (length (flat_map fst (tokenize_all s false)) <= 4096)%nat ->
+  exists out, decoder T s false attribute' = Ok out.
+Proof. exact encoder_output_decodes_strict. Qed.
+
 (* (b) one symbol per atom, one atom per symbol *)
 Theorem C10_symbol_determines_atom : forall a1 a2 t, AtomShape a1 -> IntOK a1 -> AtomShape a2 -> IntOK a2 ->
   atom_to_smiles a1 false = Ok t -> atom_to_smiles a2 false = Ok t -> a1 = a2.
@@ -103,4 +114,5 @@ Print Assumptions C10_symbol_determines_atom.
 Print Assumptions C10_printed_symbol_reads_back.
 Print Assumptions C10_standard_spellings.
 Print Assumptions C10_encoder_output_decodes_sized_partial.
+Print Assumptions C10_strict_encoder_output_decodes.
 Print Assumptions C10_standard_spellings_same_string.
